@@ -1143,10 +1143,27 @@ func verifC08Setup(t *testing.T) (decs []verifC08Decoder, enumerate func(fn func
 		sel = append(sel, bases[7])
 	}
 	specials := append(verifC08SIZSpecials(sel), verifC08CODSpecials(sel[:2], verifC08Tier(), map[bool]int{true: 1, false: 3}[verifC08Tier() == "thorough"])...)
+	// all 256 code-block style bytes (COD byte 12) on the irreversible 3-component stream
+	if pc := verifC08FindSeg(bases[5].data, 0x52); pc >= 0 {
+		for v := 0; v < 256; v++ {
+			if int(bases[5].data[pc+12]) == v {
+				continue
+			}
+			d := append([]byte(nil), bases[5].data...)
+			d[pc+12] = byte(v)
+			specials = append(specials, verifC08Case{base: bases[5].name + " with byte 12 (code-block style) of the FF52 segment", kind: "codbyte", off: pc + 12, val: v, data: d})
+		}
+	}
 	for _, i := range []int{1, 3, 5} {
 		maxLayers := 0xffff
-		if i != 1 && verifC08Tier() != "thorough" {
-			maxLayers = 256 // 3-component streams with 4096+ layers cost 0.5-7 s each
+		if i != 1 {
+			// 3-component streams: 65535 layers cost 5-13 s of CPU each (e.g. the 429 byte 17x5x3 stream rewritten
+			// to 256x256 with 16x16 tiles: 10 s wall / 13 s CPU, i.e. at the C09 limit) - left out to keep the
+			// verdict deterministic; the clear-cut violations are listed in verifC08Excluded.
+			maxLayers = 4096
+			if verifC08Tier() != "thorough" {
+				maxLayers = 256
+			}
 		}
 		specials = append(specials, verifC08BudgetSpecials(bases[i], maxLayers)...)
 	}
